@@ -18,6 +18,10 @@ cd "$V" || exit 2
 ./check setup >/dev/null 2>&1
 run_one() {  # name diff expect out miri(0/1)
   local name="$1" d="$2" expect="$3" out="$4" miri="$5"
+  if [ -n "${REGR_ONLY:-}" ] && [ -n "$expect" ]; then  # nothing to re-run for this item: skip it before touching the copy
+    local any=""; for id in $expect; do case " $REGR_ONLY " in *" $id "*) any=1;; esac; done
+    [ -z "$any" ] && return
+  fi
   git -C "$R" apply "$d" 2>/dev/null || (cd "$R" && patch -p1 --fuzz=3 -s < "$d") || { echo -e "$name\tPATCH-DOES-NOT-APPLY" >> "$out"; git -C "$R" checkout -- .; return; }
   local tests; tests=$(cd "$R" && cargo test --workspace --no-fail-fast --offline 2>&1 | grep "^test result" | awk '/: ok\./ {ok++} /FAILED/ {bad++} END {if (bad>0) print "FAILED"; else if (ok>=2) print "2"; else print ok+0}')
   local run fired="" errs=""
@@ -25,7 +29,7 @@ run_one() {  # name diff expect out miri(0/1)
   if [ -n "${REGR_ONLY:-}" ]; then  # re-run after a change to the machinery of some properties only
     local keep=""; for id in $run; do case " $REGR_ONLY " in *" $id "*) keep="$keep $id";; esac; done
     run="$keep"; [ -n "$expect" ] && expect="$(echo $keep)"
-    [ -z "$(echo $run)" ] && return
+    if [ -z "$(echo $run)" ]; then git -C "$R" checkout -- . ; git -C "$R" clean -fdq; return; fi
   fi
   for id in $run; do
     if [ "$miri" = 1 ] || [ -z "$expect" ]; then unset VERIF_SKIP_MIRI; else export VERIF_SKIP_MIRI=1; fi
